@@ -67,7 +67,14 @@ def gen_write(rng, p):
         vals = [rng.random() < 0.5 for _ in range(n)]
         if rng.random() < 0.35:
             # the caller's list may spell True by any truthy number (2, 5, 0x80, −1): a BOOL is its truth value
-            vals = [(rng.choice([True, 1, 2, 5, 0x80, -1, 255]) if b else rng.choice([False, 0])) for b in vals]
+            if rng.random() < 0.5:
+                vals = [(rng.choice([True, 1, 2, 5, 0x80, -1, 255]) if b else rng.choice([False, 0])) for b in vals]
+            else:
+                # the gentle spelling: a single 2 for a True that is followed by a False (no arithmetic on it can overflow)
+                cand = [j for j in range(len(vals) - 1) if vals[j] and not vals[j + 1] and (j + 1) % 32]
+                vals = [(1 if b else 0) for b in vals]
+                if cand:
+                    vals[rng.choice(cand)] = 2
         return tag, vals, desc
     if k == "dwordmember":
         return None
